@@ -9,7 +9,7 @@ from ref import httpstrict as S
 
 PROP = "C27"
 # per batch: client fault cases, server vanish cases, max-connection cases
-SIZES = dict(quick=(1, 1500, 320, 100), thorough=(50, 1500, 320, 100))
+SIZES = dict(quick=(1, 1200, 250, 80), thorough=(50, 1200, 250, 80))
 RULE = ("client: 1-5 queued requests (GET/POST, equal wire length) on one evhttp_connection with retries 0-3 and timeouts against a scripted raw "
         "server: refusal, close/reset/half-close after byte i of a request or byte k of a response (sampled in quick, every i and k for the small "
         "exchanges in thorough), stall until the virtual timeout, close after the response, junk, double responses, injected readv/writev errors, "
